@@ -3,7 +3,7 @@ booleans, strings only)."""
 
 from __future__ import annotations
 
-from .pack import TIME_TOL
+from .pack import TIME_TOL, pack_ckpt_call
 
 
 def _clean(v):
@@ -20,6 +20,7 @@ def pack_ins(evs):
     out = []
     ev_base, st_base = {}, {}
     last_ckpt_digest = None
+    last_ckpt_sched = None
     first_done = None
     for e in evs:
         ev = e["ev"]
@@ -27,6 +28,7 @@ def pack_ins(evs):
         b.pop("criterion", None)
         b.pop("tolerance", None)
         b.pop("digest", None)
+        b.pop("sched", None)
         for store in ("tr", "iid"):
             if b.get(store) is None:
                 b[store] = {"n": 0, "n_live": -1, "n_nested": 0, "ncols": 0, "rows": 0, "sorted": True,
@@ -55,6 +57,8 @@ def pack_ins(evs):
             b["time_diff_ms"] = 0
         if ev == "ckpt":
             last_ckpt_digest = e["digest"]
+            last_ckpt_sched = e.get("sched")
+            b["sched_ok"] = True
             b.setdefault("in_finalise", False)
         if ev == "resume":
             d = e["digest"]
@@ -63,6 +67,7 @@ def pack_ins(evs):
             else:
                 diff = sorted(k for k in set(d) | set(last_ckpt_digest) if d.get(k) != last_ckpt_digest.get(k))
                 b["digest_ok"], b["digest_diff"] = (not diff), ",".join(diff)
+            b["sched_ok"] = bool(not b["digest_ok"] or e.get("sched") == last_ckpt_sched)
         if ev in ("done", "done_again"):
             if first_done is None:
                 first_done = e
@@ -75,6 +80,8 @@ def pack_ins(evs):
                 b["pre_remove"] = {"thr_is_live": False, "n_live": 0, "n_below": -1}
             if b.get("train_n") is None:
                 b["train_n"] = -1
+        if ev == "ckpt_call":
+            b = pack_ckpt_call(e, {"ev": ev, "proc": e["proc"], "seq": e["seq"]})
         if ev == "exception":
             b["what"] = str(e.get("what", ""))[:200]
         out.append(b)
